@@ -376,8 +376,8 @@ def flat_ref(r):
 def _flat(v):
     from Bio.SeqFeature import Reference
 
-    if isinstance(v, Reference):
-        return flat_ref(v)
+    if isinstance(v, Reference) or (not isinstance(v, (str, bytes, dict, list, tuple)) and all(hasattr(v, a) for a in ("title", "authors", "journal"))):
+        return flat_ref(v)       # a Bio Reference, or a reference-like object of another class
     if isinstance(v, (list, tuple)):
         return [_flat(x) for x in v]
     if isinstance(v, dict):
